@@ -253,6 +253,7 @@ type Result struct {
 	Watchdog  bool       `json:"watchdog,omitempty"` // harness wall clock fired: inconclusive
 	Tokens    int64      `json:"tokens,omitempty"`
 	EOFReads  int64      `json:"eof_reads,omitempty"`
+	Walks     int64      `json:"walks,omitempty"`
 	DumpDiff  []DumpDiff `json:"dump_diff,omitempty"`
 	DumpSize  int        `json:"dump_size,omitempty"`
 	BlackBox  bool       `json:"black_box"`
@@ -320,6 +321,7 @@ type Engine struct {
 	WorkerDeaths atomic.Int64
 	MaxTokens    atomic.Int64
 	MaxEOF       atomic.Int64
+	MaxWalks     atomic.Int64
 	MaxTokPerRune atomic.Int64 // x1000
 	RaceLogDir   string
 }
@@ -540,6 +542,7 @@ type serveResp struct {
 	Budget    string      `json:"budget"`
 	Tokens    int64       `json:"tokens"`
 	EOFReads  int64       `json:"eof_reads"`
+	Walks     int64       `json:"walks"`
 	DumpDiff  []DumpDiff  `json:"dump_diff"`
 	DumpSize  int         `json:"dump_size"`
 	Lex       []LexResult `json:"lex"`
@@ -652,10 +655,11 @@ func (r *InProc) Run(e *Exec) *Result {
 		out = string(raw)
 	}
 	res := &Result{Stdout: out, Exit: resp.Exit, Panic: resp.Panic, Stack: resp.Stack, Budget: resp.Budget,
-		Tokens: resp.Tokens, EOFReads: resp.EOFReads, DumpDiff: resp.DumpDiff, DumpSize: resp.DumpSize, WallUs: resp.WallUs}
+		Tokens: resp.Tokens, EOFReads: resp.EOFReads, Walks: resp.Walks, DumpDiff: resp.DumpDiff, DumpSize: resp.DumpSize, WallUs: resp.WallUs}
 	if res.Normal() {
 		atomicMax(&s.eng.MaxTokens, res.Tokens)
 		atomicMax(&s.eng.MaxEOF, res.EOFReads)
+		atomicMax(&s.eng.MaxWalks, res.Walks)
 		n := int64(0)
 		for _, c := range e.Files {
 			n += int64(len(c))
